@@ -136,6 +136,21 @@ PROPS = {
         assumptions=["tag combined with redirect / removeparam / generichide is outside the stated categories and is not generated"],
         floors=(3_000_000, 30_000, 30_000_000, 300_000),
     ),
+    "C06": simple(
+        rule="case = (regex-heavy clustered rule list incl. tagged twins with different regexes and a few cosmetic rules, a history of 10-60 "
+             "operations). Engine level: {check, csp (inside check battery), url_cosmetic_resources + hidden_class_id_selectors, use/enable/"
+             "disable tags, free-then-reallocate tag pattern, set discard policy (1ns/1ns, huge, disabled), discard a random compiled regex, "
+             "serialize + deserialize into the same engine, serialize + deserialize into a fresh engine}; Blocker level adds {add_filter of the "
+             "remaining rules one at a time, optimize()}. After EVERY query the answer is compared with a fresh engine/blocker built in one "
+             "batch from the model (rules in order, enabled tags, resources). H3 hook invariant: no StaleRegex event (cache hit whose regex "
+             "source differs from what the requesting rule compiles to). non-trivial = history has >= 1 state change followed by >= 1 query and "
+             ">= 2 regex compile/hit events; distinct = hash of (rules, history).",
+        assumptions=["runs on glibc malloc (address reuse is what must be provoked; ASan's quarantine would hide it)",
+                     "$removeparam rules and non-default scriptlet permissions are not combined with deserialize here (homed in C08)",
+                     "badfilter rules are not added through add_filter (documented as unsupported)"],
+        floors=(300_000, 20_000, 6_000_000, 300_000),
+        extra_thorough=[],
+    ),
 }
 
 # ---------------------------------------------------------------------------------------------
@@ -193,6 +208,14 @@ MANIFEST_TEXT = {
         "note": "Per-rule matching trusted (C02/C03); deserialize uses buffers of the same list under different tag sets.",
         "technique": "runtime monitoring: model-based history checking against a set model + reference verdicts",
         "design_ref": "DESIGN.md §4.7",
+    },
+    "C06": {
+        "text": "Runtime model-based history monitor: random operation histories are applied to the real engine (and Blocker), and every query "
+                "answer is compared with a freshly built twin of the model state; an invariant hook inside the regex cache flags any cache hit "
+                "whose compiled regex is not the one the requesting rule compiles to, even when both happen to agree on the URL asked.",
+        "note": "Fresh twin is the same code under test built in one batch; absolute correctness is C01's job. Native allocator (address reuse) is part of the setup.",
+        "technique": "runtime monitoring: model-based differential over operation histories + invariant at a regex-cache hook",
+        "design_ref": "DESIGN.md §4.6",
     },
 }
 
